@@ -593,6 +593,18 @@ func (s *gridState) checkPoint(c *vrt.Ctx, st *blasStats, desc func() string) {
 	changedAll := call.Changed(s.snap, true)
 	flags := call.FlagString
 	switch {
+	case len(bad) == 0 && p == nil && call.N > 0:
+		sampBlasValid.offer(c, 1, func() any {
+			return map[string]any{"sub_check": "blas grid", "call": desc(), "contract": "satisfied", "outcome": "returned normally",
+				"words_changed_in_operands": len(changedAll), "words_changed_outside_result": len(call.Changed(s.snap, false))}
+		})
+	case len(bad) > 0 && p != nil:
+		sampBlasInvalid.offer(c, 1, func() any {
+			return map[string]any{"sub_check": "blas grid", "call": desc(), "violated_clauses": bad, "outcome": "panic: " + p.Msg,
+				"panic_is_runtime_error": p.Runtime, "words_changed_in_operands": len(changedAll)}
+		})
+	}
+	switch {
 	case len(bad) == 0:
 		st.valid.Add(1)
 		if p != nil {
